@@ -147,7 +147,7 @@ def stored(prefix, t=None):
 def split_bound(prefix, final):
     ft, fk = final
     if fk == "ADD_IOVEC": return 4 * 13 - 1                      # len0 0..12 x len1 0..3 (n = 4*len0 + len1)
-    if fk in ADDERS: return ADD_SPLIT
+    if fk in ADDERS or fk == "RESERVE_ONLY": return ADD_SPLIT
     if fk == "REMOVEBUF": return stored(prefix, 1 - ft) + 1      # bytes in the source buffer + 1 ("more than stored")
     L = stored(prefix)
     if fk == "SEARCH": return L + 2
@@ -166,7 +166,7 @@ def evb_split(mode, prefix, final, **kw):
         extra.append("VP_SPLIT=%d" % b)
         kw.setdefault("desc_extra", "")
         kw["desc_extra"] += "; size/position argument 0..%d case-split, other arguments and all bytes symbolic" % b
-    kw.setdefault("final_max", ADD_SPLIT if final[1] in ADDERS else 8)
+    kw.setdefault("final_max", ADD_SPLIT if (final[1] in ADDERS or final[1] == "RESERVE_ONLY") else 8)
     if effect_reachable(prefix, final): extra.append("VP_WIT_EFFECT")
     return evb_obligation(mode, prefix, final, extra_defs=extra, **kw)
 
